@@ -10,41 +10,48 @@ Require Import SQV.Model.Str SQV.Model.Escape SQV.Model.Value SQV.Model.Literal 
 Section S.
 Variable ftext : bool -> N -> str.
 Variable b : backend.
+Variable inl : bool.     (* false: the parameterised SQL of build(); true: the inline SQL of to_string() *)
 
-(* the text a token contributes to the parameterised SQL; a hole is written as its mark (and number) *)
+(* the text a token contributes; in the parameterised SQL a hole is written as its mark (and number), in the
+   inline SQL as the literal of its value *)
 Definition tok_text (t : wtok) : str :=
   match t with
   | WS s | WCust s => s
   | WId s => iden_prepare (quote_char b) s
-  | WVal _ => fst (placeholder b)
+  | WVal v => if inl then value_to_string ftext b v else fst (placeholder b)
   | WConst v => value_to_string ftext b v
   | WPanic => []
   end.
 Definition tok_empty (t : wtok) : bool :=
-  match t with WVal _ => false | _ => is_nil (tok_text t) end.
+  match t with WVal _ => if inl then is_nil (tok_text t) else false | _ => is_nil (tok_text t) end.
 
 (* the engine tokens of a text piece lexed alone (without its trailing blanks), and whether it has trailing blanks *)
 Definition text_toks (s : str) : option (list etok) := eng_tokens b (fst (rstrip s)).
 Definition text_trailing_blank (s : str) : bool := negb (is_nil (snd (rstrip s))).
 
 (* a token lexes alone; a text piece contains no placeholder token *)
+Definition text_lexes (s : str) : bool :=
+  match text_toks s with Some ts => negb (has_param ts) | None => false end.
 Definition tok_lexes (t : wtok) : bool :=
   match t with
-  | WVal _ | WPanic => true
-  | _ => match text_toks (tok_text t) with Some ts => negb (has_param ts) | None => false end
+  | WPanic => true
+  | WVal _ => if inl then text_lexes (tok_text t) else true
+  | _ => text_lexes (tok_text t)
   end.
 
 (* may character f follow token t directly? *)
+Definition text_follow_ok (s : str) (f : N) : bool :=
+  text_trailing_blank s ||
+  match text_toks s with
+  | Some [] => true
+  | Some ts => follow_char_ok (last ts (TkPunct 0)) f
+  | None => false
+  end.
 Definition tok_follow_ok (t : wtok) (f : N) : bool :=
   match t with
-  | WVal _ => negb (is_word_char f)          (* its last engine token is the placeholder *)
-  | _ =>
-      text_trailing_blank (tok_text t) ||
-      match text_toks (tok_text t) with
-      | Some [] => true
-      | Some ts => follow_char_ok (last ts (TkPunct 0)) f
-      | None => false
-      end
+  | WVal _ => if inl then text_follow_ok (tok_text t) f
+              else negb (is_word_char f)          (* its last engine token is the placeholder *)
+  | _ => text_follow_ok (tok_text t) f
   end.
 
 (* the first character of the text written by the rest of the script, if any *)
